@@ -2,7 +2,7 @@
    Every observation was made on the REAL code (the fork's reader in /repo; the harness has
    already checked that Go's reference reader made the same observation, or reported the
    difference as a failing input). *)
-From ReqV Require Export Lib.Bytes Model.H1Resp.
+From ReqV Require Export Lib.Bytes Model.H1Resp Model.H1Conn.
 
 (* run-length pieces in harness-generated streams: [rep n b] = n copies of byte b *)
 Definition rep (n b : nat) : bytes := repeat (byte_of_N_total (N.of_nat b)) n.
@@ -15,7 +15,11 @@ Inductive obs_resp :=
 Inductive c04_case :=
 | HexCase (input : bytes) (obs : hexres)
 | ChunkCase (bufsize : N) (stream : bytes) (obs_data : bytes) (obs_end : berr) (obs_consumed : N)
-| RespCase (meth : bytes) (bufsize : N) (stream : bytes) (obs : obs_resp).
+| RespCase (meth : bytes) (bufsize : N) (stream : bytes) (obs : obs_resp)
+(* the same bytes served by a raw TCP peer to the real client (Transport.RoundTrip): what the
+   caller saw; [reused]: where the peer saw the client's NEXT request arrive (Some true = on
+   the same connection), measured only when the stream is exactly one complete message *)
+| TcpCase (meth : bytes) (stream : bytes) (obs : obs_resp) (reused : option bool).
 
 Definition herr_eqb (a b : herr) : bool :=
   match a, b with
@@ -80,6 +84,23 @@ Definition c04_check (c : c04_case) : bool :=
           (match b_end b with
            | BOk => (N.of_nat (consumed s b) =? ncons)%N
            | _ => true
+           end)
+      | _, _ => false
+      end
+  | TcpCase m s o reused =>
+      match client_read m s, o with
+      | None, ORej _ => true
+      | Some cv, OAcc proto code status hdr cl chunked close _ body bend trailer _ =>
+          let r := cv_resp cv in let b := cv_body cv in
+          bytes_eqb (r_proto r) proto && (r_code r =? code)%Z && bytes_eqb (r_status r) status &&
+          hmap_eqb (r_header r) hdr && (r_content_length r =? cl)%Z &&
+          Bool.eqb (r_chunked r) chunked && Bool.eqb (r_close r) close &&
+          bytes_eqb (b_data b) body &&
+          Bool.eqb (berr_eqb (b_end b) BOk) (berr_eqb bend BOk) &&
+          (match b_end b with BOk => hmap_eqb (b_trailer b) trailer | _ => true end) &&
+          (match reused with
+           | Some u => Bool.eqb (cv_reusable cv) u
+           | None => true
            end)
       | _, _ => false
       end
